@@ -252,7 +252,7 @@ class Engine:
         key = (s.cur, n)
         if key not in s.tls:
             g = s.m.globals[n]
-            a = s.mem.alloc(max(s.L.size(g['ty']), 1), 'tls', '%s@t%d' % (n, s.cur)); s.tls[key] = a
+            a = s.mem.alloc(max(s.L.size(g['ty']), 1), 'tls', '%s@t%d' % (n, s.cur), tid=s.cur); s.tls[key] = a
             if g['init'] is not None: s.init_const(a, g['ty'], g['init'])
         return s.tls[key]
     def init_const(s, addr, ty, v):
@@ -430,6 +430,20 @@ class Engine:
         if op in ('cmpxchg', 'atomicrmw'): return True
         if op in ('call', 'invoke') and I.callee.kind == 'global' and I.callee.name in VISIBLE_RT: return True
         return False
+    def thread_local_access(s, t, I, env, depth):
+        """partial-order reduction: an atomic access whose address is a thread_local variable of the executing thread is not a
+        scheduling point (no other thread can name that storage; an access to another thread's thread_local storage is
+        reported as an engine limit in Memory.check_access, so the reduction is checked, not assumed)"""
+        if I.op not in ('load', 'store', 'cmpxchg', 'atomicrmw'): return False
+        try:
+            pv = I.p
+            if pv.kind == 'local': a = env[depth - 1].get(pv.name)
+            else:
+                s.env = env; s.depth = depth; a = s.const(pv)
+        except Exception: return False
+        if not isinstance(a, int): return False
+        r = s.mem.region_of(a)
+        return r is not None and r.kind == 'tls' and r.tid == t
     # ------------------------------------------------------------------ run
     def run(s, t, starts, stop_visible=True, first_visible_ok=True):
         """Execute thread t from the control states `starts` (ctrl -> (guard, env)) until each path has executed ONE
@@ -470,7 +484,7 @@ class Engine:
                 if budget < 0: raise EngineLimit('per-step instruction budget exceeded in thread %d (non-visible loop?) at %r' % (t, ctrl[0]))
                 fr = ctrl[0]; f, I = s.ins_at(fr)
                 s.stats['ins'] += 1; s.fn_ins[fr[0]] = s.fn_ins.get(fr[0], 0) + 1
-                if stop_visible and s.is_visible(I):
+                if stop_visible and s.is_visible(I) and not s.thread_local_access(t, I, env, len(ctrl)):
                     if not vis_ok:
                         emit(ctrl, g, env); break
                     vis_ok = False
